@@ -115,6 +115,18 @@ theorem session_spec {p : Program} {s : St} (inv : Inv p s) {ws : List Write}
         obtain ⟨d0, hp0, hk0', _⟩ := inv.kind x n0 h0
         rw [hp] at hp0; cases hp0
         exact ⟨n', hn', by rw [← hk, hk0']⟩
+    -- firewall and projection nodes are not touched by the writes of a session
+    have fwpjSame : ∀ d nd, s.nodes d = some nd → nd.kind = .firewall ∨ nd.kind = .projection →
+        s1.nodes d = some nd := by
+      intro d nd hnd hkd
+      cases hnodes d with
+      | inl h => rw [h]; exact hnd
+      | inr h =>
+        obtain ⟨n', hn', hl, _, ⟨dd, hp, hk⟩, _⟩ := h
+        obtain ⟨d0, hp0, hk0', _⟩ := inv.kind d nd hnd
+        rw [hp] at hp0; cases hp0
+        have : n'.kind = nd.kind := by rw [← hk, hk0']
+        rcases hl.1 with h | h <;> rcases hkd with h' | h' <;> rw [this, h'] at h <;> cases h
     have down1 : ∀ x n, s1.nodes x = some n → ∀ d o, (d, o) ∈ n.deps → d < x := by
       intro x nx hx d o hm
       rcases cls x nx hx with h | ⟨⟨_, h, _⟩, _⟩
@@ -145,25 +157,58 @@ theorem session_spec {p : Program} {s : St} (inv : Inv p s) {ws : List Write}
         rcases cls x nx hx with h | ⟨hl, _, d, hp, hi⟩
         · exact inv.kind x nx h
         · exact ⟨d, hp, hi, fun _ => ⟨hl.2.1, hl.2.2⟩⟩
+      · intro pa x nx hx hkx d o nd' hm hnd'
+        rcases cls x nx hx with h | ⟨hl, _⟩
+        · obtain ⟨_, nd, hnd⟩ := inv.down x nx h d o hm
+          obtain ⟨n1, hn1, hk1⟩ := keepNode d nd hnd
+          have hnd'' : s1.nodes d = some nd' := hnd'
+          rw [hn1] at hnd''; cases hnd''
+          rw [hk1]; exact inv.pjFw pa x nx h hkx d o nd hm hnd
+        · rcases hl.1 with h | h <;> rw [hkx] at h <;> cases h
       · intro x nx hx hkx d o nd' hm hnd'
         rcases cls x nx hx with h | ⟨hl, _⟩
         · obtain ⟨_, nd, hnd⟩ := inv.down x nx h d o hm
           obtain ⟨n1, hn1, hk1⟩ := keepNode d nd hnd
           have hnd'' : s1.nodes d = some nd' := hnd'
           rw [hn1] at hnd''; cases hnd''
-          rw [hk1]; exact inv.pjFw x nx h hkx d o nd hm hnd
+          rw [hk1]; exact inv.pjKinds x nx h hkx d o nd hm hnd
         · rcases hl.1 with h | h <;> rw [hkx] at h <;> cases h
+      · intro sp x nx dx ks hx hpx hkx hstx
+        rcases cls x nx hx with h | ⟨hl, _⟩
+        · refine inv.pjStat_transfer sp ?_ h hpx hkx hstx
+          intro d nd hnd hkd
+          have : s1.nodes d = some nd := fwpjSame d nd hnd hkd
+          simp only [front, hmn, this, hnd]
+        · rcases hl.1 with h | h <;> rw [hkx] at h <;> cases h
+      · intro sp x nx g o gn hx hm hg hkg
+        have hg1 : s1.nodes g = some gn := hg
+        have hg0 : s.nodes g = some gn := by
+          rcases cls g gn hg1 with h | ⟨hl, _⟩
+          · exact h
+          · rcases hl.1 with h | h <;> rw [hkg] at h <;> cases h
+        rcases cls x nx hx with h | ⟨⟨_, h, _⟩, _⟩
+        · exact inv.pjSeen sp x nx g o gn h hm hg0 hkg
+        · rw [h] at hm; cases hm
+      · intro sp g gn hg hkg hpg
+        have hg1 : s1.nodes g = some gn := hg
+        have hg0 : s.nodes g = some gn := by
+          rcases cls g gn hg1 with h | ⟨hl, _⟩
+          · exact h
+          · rcases hl.1 with h | h <;> rw [hkg] at h <;> cases h
+        obtain ⟨c, o, hm, hc⟩ := inv.pjCause sp g gn hg0 hkg hpg
+        obtain ⟨_, nc, hnc⟩ := inv.down g gn hg0 c o hm
+        have := fwpjSame c nc hnc (inv.pjKinds g gn hg0 hkg c o nc hm hnc)
+        refine ⟨c, o, hm, ?_⟩
+        have hc' : nc.pendingBP = true := by simpa [hasPending, hnc] using hc
+        simp [hasPending, hmn, this, hc']
       · intro x nx hx hkx d o nd' hm hnd' hne
         rcases cls x nx hx with h | ⟨hl, _⟩
         · obtain ⟨_, nd, hnd⟩ := inv.down x nx h d o hm
-          have hkd := inv.pjFw x nx h hkx d o nd hm hnd
+          have hkd := inv.pjKinds x nx h hkx d o nd hm hnd
           have hnd'' : s1.nodes d = some nd' := hnd'
-          -- a firewall node is not touched by the writes of a session
-          rcases cls d nd' hnd'' with h' | ⟨hl', _⟩
-          · exact inv.pjBroken x nx h hkx d o nd' hm h' hne
-          · obtain ⟨n1, hn1, hk1⟩ := keepNode d nd hnd
-            rw [hnd''] at hn1; cases hn1
-            rcases hl'.1 with h' | h' <;> rw [hk1, hkd] at h' <;> cases h'
+          have e := (fwpjSame d nd hnd hkd).symm.trans hnd''
+          obtain rfl := Option.some.inj e
+          exact inv.pjBroken x nx h hkx d o nd hm hnd hne
         · rcases hl.1 with h | h <;> rw [hkx] at h <;> cases h
       · intro x nx hx d o hm
         rcases cls x nx hx with h | ⟨⟨_, h, _⟩, _⟩
